@@ -274,7 +274,10 @@ def main():
         for f in known.get("findings", []):
             if f.get("property") == prop and f.get("status") == "known":
                 hits = sum(m["known_hits"].get(prop + "|" + sg, 0) for sg in f["signatures"])
-                kf_lines.append("KNOWN-FINDING: property=%s %s [%d listed signature(s), e.g. %s; hit %d times in this run]" % (prop, f.get("what", ""), len(f["signatures"]), f["signatures"][0], hits))
+                what = f.get("what", "")
+                if len(what) > 360:
+                    what = what[:357] + "..."
+                kf_lines.append("KNOWN-FINDING: property=%s %s [%d listed signature(s), e.g. %s; hit %d times in this run; full text in known_findings.json]" % (prop, what, len(f["signatures"]), f["signatures"][0], hits))
         write_evidence(prop, tier, seed, meta, m, wall, build_s, cached, cdir, violations, known)
         for l in kf_lines:
             print(l)
